@@ -114,6 +114,31 @@ def c17_3(c: Ctx) -> None:
     arms = [n for n in own_nodes(u.node) if isinstance(n, ast.ExceptHandler)]
     if arms and all(any(isinstance(x, ast.Call) and U(x.func).startswith('logger.') for b in a.body for x in ast.walk(b)) for a in arms):
         c.ok(where(u, arms[0]), 'a failing write is reported through the logger')
+        # ... at a level the library's own default configuration lets through
+        order = {'debug': 10, 'info': 20, 'warning': 30, 'warn': 30, 'error': 40, 'exception': 40, 'critical': 50, 'fatal': 50}
+        default = None
+        for mod in (SVC, MOD):
+            mi = c.prog.module(mod)
+            for x in ast.walk(mi.tree):
+                if isinstance(x, ast.Call) and call_name(x) == 'setLevel' and isinstance(x.func, ast.Attribute) and U(x.func.value) == 'logger' and x.args:
+                    lv = x.args[0]
+                    if isinstance(lv, ast.Name):
+                        d = c.prog.module(MOD).globals_assign.get(lv.id) or mi.globals_assign.get(lv.id)
+                        for y in ast.walk(d) if d is not None else []:
+                            if isinstance(y, ast.Call) and call_name(y) == 'getenv' and len(y.args) >= 2 and isinstance(y.args[1], ast.Constant):
+                                default = str(y.args[1].value).lower()
+                    elif isinstance(lv, ast.Attribute):
+                        default = lv.attr.lower()
+                    elif isinstance(lv, ast.Constant):
+                        default = str(lv.value).lower()
+        if default is not None and default in order:
+            for a in arms:
+                levels = [x.func.attr for b in a.body for x in ast.walk(b) if isinstance(x, ast.Call) and isinstance(x.func, ast.Attribute) and U(x.func.value) == 'logger' and x.func.attr in order]
+                if levels and max(order[l] for l in levels) >= order[default]:
+                    c.ok(where(u, a), f'reported with logger.{max(levels, key=lambda l: order[l])}, which the default level {default.upper()} lets through')
+                elif levels:
+                    c.fail(u, f'WAL failure reported with logger.{levels[0]} while the library sets its logger to {default.upper()} by default', 'with the default configuration the report of a failing WAL write is '
+                           'filtered out by the logger level: the write fails silently', node=a)
     else:
         c.fail(u, 'WAL failure is not logged', 'a failing WAL write is silently ignored')
 
@@ -194,6 +219,65 @@ def c17_5(c: Ctx) -> None:
     else:
         cond = next((s_.node.text(80) for s_ in reversed(p) if s_.node.kind == 'if'), 'unconditionally')
         c.fail(u, f'the WAL handler can return without writing although a WAL path is set (`{cond}`)', 'some processed events get no WAL line (e.g. a parent that completes later through its children)', witness=c.path(g.entry, p))
+
+
+def check_opaque_results_before_completion(c: Ctx) -> None:
+    """FM-handler, the part about *values*: what a handler returned is an arbitrary object; its implicit protocol methods (__bool__, __str__, __eq__, __len__)
+    may raise (numpy arrays and pandas frames raise on truth tests).  On the stretch of process_event between the handlers and the WAL append / completion mark,
+    outside any try that contains the failure, such a value must stay opaque."""
+    pe = c.unit(SVC, 'EventBus.process_event')
+    g = c.cfg(pe)
+    eh_nodes = [n for n in g.live_nodes() if q.node_calls(n, '_execute_handlers')]
+    if not eh_nodes:
+        raise AnchorError('process_event: no call of _execute_handlers')
+    after = {id(n.ast) for n in g.live_nodes() if n.ast is not None and getattr(n.ast, 'lineno', 0) > eh_nodes[0].ast.lineno}
+    units = [(pe, [x for x in own_nodes(pe.node) if isinstance(x, ast.stmt) and id(x) in after])]
+    for call, r in c.cg.edges.get(pe.key, []):
+        if isinstance(r, Unit) and getattr(call, 'lineno', 0) > eh_nodes[0].ast.lineno and r.name.startswith('_default_') and r.module == SVC:
+            units.append((r, list(r.node.body)))
+    n_checked = 0
+    for u, stmts in units:
+        ev = u.params()[1] if len(u.params()) > 1 else 'event'
+        tainted = {f'{ev}.event_results'}
+        loopvars: set[str] = set()
+        for st in stmts:
+            for x in ast.walk(st):
+                if isinstance(x, (ast.For, ast.comprehension)) and 'event_results' in U(x.iter):
+                    loopvars |= {t.id for t in ast.walk(x.target) if isinstance(t, ast.Name)}
+        for st in stmts:
+            protected = any(isinstance(a, ast.Try) and q.lexically_in(st, a, 'body') and any(h.type is None or U(h.type) in ('Exception', 'BaseException') for h in a.handlers) for a in q.ancestors_of(st))
+            for x in ast.walk(st):
+                opaque_use = None
+                if isinstance(x, ast.FormattedValue) or (isinstance(x, ast.Call) and isinstance(x.func, ast.Name) and x.func.id in ('str', 'repr', 'bool', 'len', 'format', 'sorted', 'min', 'max')):
+                    inner = x.value if isinstance(x, ast.FormattedValue) else (x.args[0] if x.args else None)
+                    if inner is not None:
+                        names = {t.id for t in ast.walk(inner) if isinstance(t, ast.Name)}
+                        if (names & loopvars) or '.result' in U(inner) + ' ' or 'event_results.values()' in U(inner) or U(inner).endswith('event_results'):
+                            opaque_use = x
+                if opaque_use is not None:
+                    n_checked += 1
+                    if protected:
+                        c.ok(where(u, opaque_use), f'`{U(opaque_use)[:50]}` formats handler-provided values inside a try that contains any failure')
+                    else:
+                        c.fail(u, f'`{U(opaque_use)[:60]}` applies str()/bool()/format to handler-provided values before the event is logged to the WAL and marked complete',
+                               'a handler may return any object; one whose __bool__ / __str__ raises (a numpy array, a DataFrame) makes this statement raise: process_event aborts after the handlers finished, the WAL '
+                               'line is never written and the event never completes', node=opaque_use)
+    if n_checked == 0:
+        c.ok(where(pe), f'between the handlers and the completion mark, process_event and its hooks ({", ".join(u.name for u, _ in units[1:]) or "none"}) never format or truth-test handler-provided values')
+
+
+@ob('C17.6', 'EFFECT', 'between the end of the handlers and the WAL append, handler-provided values stay opaque: process_event and the hooks it awaits there (_default_log_handler, '
+    '_default_wal_handler) do not format, truth-test or compare event results outside a try that contains the failure (a returned object may raise from __bool__ / __str__)')
+def c17_6(c: Ctx) -> None:
+    check_opaque_results_before_completion(c)
+
+
+@ob('C17.7', 'ESC', 'the WAL line is written only after every handler task of the event has finished, also when a sibling failed or timed out (same obligation as C03.7 / C01.4): otherwise '
+    'the line is a snapshot of an event whose handlers are still changing it, and no later line corrects it')
+def c17_7(c: Ctx) -> None:
+    from .c03 import c03_7
+
+    c03_7(c)
 
 
 OBLIGATIONS = ob.obs
